@@ -428,6 +428,30 @@ type c05Sink struct{ n int }
 func (s *c05Sink) WritePacket(p *packet.Packet) (int, error) { s.n++; return packet.PacketSize, nil }
 
 func c05Streams(res *engine.Result, in []byte) {
+	// the whole packets of the stream, and every tail of that list, handed to the PMT filter as they are (what a
+	// caller that collects "the packets of the PMT PID" by PID alone passes on: packets without payload in front,
+	// foreign packets in between)
+	if n := len(in) / 188; n >= 1 && n <= 4 {
+		pk := make([]packet.Packet, n)
+		for i := range pk {
+			copy(pk[i][:], in[i*188:])
+		}
+		for from := 0; from < n; from++ {
+			var ptrs []*packet.Packet
+			for i := from; i < n; i++ {
+				ptrs = append(ptrs, &pk[i])
+			}
+			for _, l := range [][]int{{0x65, 0x66}, {0x65}, {0, packet.Pid(ptrs[0])}} {
+				g(res, "psi.FilterPMTPacketsToPids(stream packets)", func() { sink(psi.FilterPMTPacketsToPids(ptrs, l)) })
+			}
+		}
+		for i := range pk {
+			if !bytes.Equal(pk[i][:], in[i*188:(i+1)*188]) {
+				res.Failf("psi.FilterPMTPacketsToPids(stream packets)|read-only|packet-modified", "input packet %d modified", i)
+				break
+			}
+		}
+	}
 	for mode := 0; mode < 5; mode++ {
 		one := mode == 1
 		rd := func() io.Reader {
